@@ -358,7 +358,8 @@ _QUIET = _QuietCtx()
 def shards(tier):
     evs = event_menu()
     n = len(evs)
-    return [{"first": i, "eq": eq} for eq in (False, True) for i in range(n)]
+    return [{"first": i, "eq": eq} for eq in (False, True, "falsy")
+            for i in range(n)]
 
 
 def run_shard(ctx, shard, tier):
